@@ -81,6 +81,16 @@ CHECKS = {
         note=NOTE + " unimock 0.6.8 / mockall 0.12.1 derives as shipped.",
         technique="exhaustive enumeration of a finite configuration lattice on the real macro, decision-table model",
         ref="DESIGN.md §3 C10"),
+    "C11": dict(
+        text="(unimock feature on, --cfg test) Every argument word <= 2 (quick) / <= 3 (thorough) over {i64, &str, destructured tuple} x deps {&impl, &D, "
+             "no_deps, concrete} x sync/async for single fns, modules of three same-signature fns declared in non-alphabetical order, entraited traits with "
+             "three same-signature methods, and macro_rules-stamped fns whose parameters differ only in hygiene: the mock API must resolve under exactly the "
+             "mock_api name; a clause matching the position-coded arguments answers the call and a clause with permuted arguments does not; on "
+             "Unimock::new_partial(()) the ORIGINAL function must run once with the Unimock instance as deps (address + type name), same arguments, same "
+             "result as the Impl<T> path; concrete-deps fns and entraited traits must panic with 'cannot be unmocked'.",
+        note=NOTE + " unimock 0.6.8 as shipped.",
+        technique="bounded-exhaustive enumeration of mockable programs on the real macro + real unimock; executed trace vs model",
+        ref="DESIGN.md §3 C11"),
     "C12": dict(
         text="6 input modes (fn, mod, entraited trait, trait + static impl block, leaf trait by ref, trait + dyn impl block) x 5 return kinds (unit, owned, "
              "borrowed from deps, borrowed from an argument with a named lifetime, generic) x {default, ?Send} x {native, async_trait} x {clean body, body "
